@@ -58,24 +58,26 @@ def spendable (b : Bank) (nowSec : Int) (a : Addr) : Coins :=
 def setBal (b : Bank) (a : Addr) (d : String) (n : Nat) : Bank :=
   { b with bal := AL.setNat b.bal (a, d) n }
 
+/-- `subUnlockedCoins` for one coin, given the locked coins of the account -/
+def subUnlockedCoin (locked : Coins) (a : Addr) (b : Bank) (c : Coin) : M Bank := do
+  let balance : Int := b.balOf a c.denom
+  require (Coins.amountOf locked c.denom ≤ balance) eInsufficientFunds
+  require (c.amt ≤ balance - Coins.amountOf locked c.denom) eInsufficientFunds
+  pure (b.setBal a c.denom (balance - c.amt).toNat)
+
 /-- `subUnlockedCoins` -/
 def subUnlocked (b : Bank) (nowSec : Int) (a : Addr) (amt : Coins) : M Bank := do
-  if !Coins.isValid amt then throw eInvalidCoins
-  let locked := lockedCoins b nowSec a
-  amt.foldlM (fun (b : Bank) (c : Coin) => do
-    let balance : Int := b.balOf a c.denom
-    let lockedAmt := Coins.amountOf locked c.denom
-    if balance < lockedAmt then throw eInsufficientFunds
-    if balance - lockedAmt < c.amt then throw eInsufficientFunds
-    pure (b.setBal a c.denom (balance - c.amt).toNat)) b
+  require (Coins.isValid amt) eInvalidCoins
+  amt.foldlM (subUnlockedCoin (lockedCoins b nowSec a) a) b
+
+def addCoin (a : Addr) (b : Bank) (c : Coin) : M Bank := do
+  require (fitsInt256 (b.balOf a c.denom + c.amt)) (.panic "Int overflow")
+  pure (b.setBal a c.denom ((b.balOf a c.denom : Int) + c.amt).toNat)
 
 /-- `addCoins` -/
 def addCoins (b : Bank) (a : Addr) (amt : Coins) : M Bank := do
-  if !Coins.isValid amt then throw eInvalidCoins
-  amt.foldlM (fun (b : Bank) (c : Coin) => do
-    let nb : Int := b.balOf a c.denom + c.amt
-    if !fitsInt256 nb then throw (.panic "Int overflow")
-    pure (b.setBal a c.denom nb.toNat)) b
+  require (Coins.isValid amt) eInvalidCoins
+  amt.foldlM (addCoin a) b
 
 /-- `SendCoins` (creates the recipient account when missing) -/
 def sendCoins (b : Bank) (nowSec : Int) (src dst : Addr) (amt : Coins) : M Bank := do
@@ -83,13 +85,14 @@ def sendCoins (b : Bank) (nowSec : Int) (src dst : Addr) (amt : Coins) : M Bank 
   let b ← addCoins b dst amt
   pure (b.ensureAccount dst)
 
+def addSupply (b : Bank) (c : Coin) : M Bank := do
+  require (fitsInt256 (b.supplyOf c.denom + c.amt)) (.panic "Int overflow")
+  pure { b with supply := AL.setNat b.supply c.denom ((b.supplyOf c.denom : Int) + c.amt).toNat }
+
 /-- `MintCoins` into a module account holding the Minter permission -/
 def mint (b : Bank) (module : Addr) (amt : Coins) : M Bank := do
   let b ← addCoins b module amt
-  amt.foldlM (fun (b : Bank) (c : Coin) => do
-    let ns : Int := b.supplyOf c.denom + c.amt
-    if !fitsInt256 ns then throw (.panic "Int overflow")
-    pure { b with supply := AL.setNat b.supply c.denom ns.toNat }) b
+  amt.foldlM addSupply b
 
 /-- `BaseVestingAccount.TrackDelegation` for one coin -/
 def trackDelegationCoin (v : Vest) (vesting : Coins) (c : Coin) : Vest :=
@@ -101,19 +104,23 @@ def trackDelegationCoin (v : Vest) (vesting : Coins) (c : Coin) : Vest :=
     delVesting := if x ≠ 0 then Coins.add v.delVesting [{ denom := c.denom, amt := x }] else v.delVesting
     delFree := if y ≠ 0 then Coins.add v.delFree [{ denom := c.denom, amt := y }] else v.delFree }
 
+def takeCoin (a : Addr) (b : Bank) (c : Coin) : M Bank := do
+  require (c.amt ≤ (b.balOf a c.denom : Int)) eInsufficientFunds
+  pure (b.setBal a c.denom ((b.balOf a c.denom : Int) - c.amt).toNat)
+
+/-- vesting bookkeeping of a delegation (no effect for base accounts) -/
+def trackDelegation (b : Bank) (nowSec : Int) (delegator : Addr) (amt : Coins) : Bank :=
+  match AL.find? b.vest delegator with
+  | none => b
+  | some v =>
+    let vesting : Coins := if nowSec ≥ v.endTime then [] else v.orig
+    { b with vest := AL.insert b.vest delegator (amt.foldl (fun v c => trackDelegationCoin v vesting c) v) }
+
 /-- `DelegateCoins(delegator → module)` -/
 def delegate (b : Bank) (nowSec : Int) (delegator module : Addr) (amt : Coins) : M Bank := do
-  if !Coins.isValid amt then throw eInvalidCoins
-  let b ← amt.foldlM (fun (b : Bank) (c : Coin) => do
-    let balance : Int := b.balOf delegator c.denom
-    if balance < c.amt then throw eInsufficientFunds
-    pure (b.setBal delegator c.denom (balance - c.amt).toNat)) b
-  let b := match AL.find? b.vest delegator with
-    | none => b
-    | some v =>
-      let vesting : Coins := if nowSec ≥ v.endTime then [] else v.orig
-      { b with vest := AL.insert b.vest delegator (amt.foldl (fun v c => trackDelegationCoin v vesting c) v) }
-  addCoins b module amt
+  require (Coins.isValid amt) eInvalidCoins
+  let b ← amt.foldlM (takeCoin delegator) b
+  addCoins (b.trackDelegation nowSec delegator amt) module amt
 
 /-- `BaseVestingAccount.TrackUndelegation` for one coin -/
 def trackUndelegationCoin (v : Vest) (c : Coin) : Vest :=
@@ -125,14 +132,16 @@ def trackUndelegationCoin (v : Vest) (c : Coin) : Vest :=
     delFree := if x ≠ 0 then (Coins.safeSub v.delFree [{ denom := c.denom, amt := x }]).1 else v.delFree
     delVesting := if y ≠ 0 then (Coins.safeSub v.delVesting [{ denom := c.denom, amt := y }]).1 else v.delVesting }
 
+def trackUndelegation (b : Bank) (delegator : Addr) (amt : Coins) : Bank :=
+  match AL.find? b.vest delegator with
+  | none => b
+  | some v => { b with vest := AL.insert b.vest delegator (amt.foldl trackUndelegationCoin v) }
+
 /-- `UndelegateCoins(module → delegator)` -/
 def undelegate (b : Bank) (nowSec : Int) (module delegator : Addr) (amt : Coins) : M Bank := do
-  if !Coins.isValid amt then throw eInvalidCoins
+  require (Coins.isValid amt) eInvalidCoins
   let b ← subUnlocked b nowSec module amt
-  let b := match AL.find? b.vest delegator with
-    | none => b
-    | some v => { b with vest := AL.insert b.vest delegator (amt.foldl trackUndelegationCoin v) }
-  addCoins b delegator amt
+  addCoins (b.trackUndelegation delegator amt) delegator amt
 
 /-- Σ over all accounts of the balance in denomination `d` -/
 def totalOf (b : Bank) (d : String) : Nat :=
